@@ -6,10 +6,22 @@ mod position;
 use lsp_types::Position;
 use serde_json::{Value, json};
 
-fn text_of(row: &Value) -> String {
+/// Each abstract character class stands for every code point with that (UTF-8 length, UTF-16 length); the
+/// harness instantiates it with the boundary code points of the class (first/last of each encoding range and
+/// of each lead byte that matters), one variant per choice, so the abstraction is not trusted blindly.
+const A: [&str; 3] = ["a", "\u{7f}", " "];
+const E2: [&str; 3] = ["\u{e9}", "\u{80}", "\u{7ff}"];
+const E3: [&str; 5] = ["\u{20ac}", "\u{800}", "\u{ffff}", "\u{d7ff}", "\u{e000}"];
+const E4: [&str; 5] = ["\u{1f600}", "\u{10000}", "\u{10ffff}", "\u{100000}", "\u{fffff}"];
+const VARIANTS: usize = 5;
+
+fn text_of(row: &Value, variant: usize) -> String {
     let mut s = String::new();
-    for c in row["text"].as_array().unwrap() {
-        s.push_str(match c.as_str().unwrap() { "a" => "a", "e2" => "\u{e9}", "e3" => "\u{20ac}", "e4" => "\u{1f600}", "cr" => "\r", "lf" => "\n", _ => panic!() });
+    for (i, c) in row["text"].as_array().unwrap().iter().enumerate() {
+        let v = if variant == 0 { 0 } else { variant + i };
+        s.push_str(match c.as_str().unwrap() {
+            "a" => A[v % A.len()], "e2" => E2[v % E2.len()], "e3" => E3[v % E3.len()], "e4" => E4[v % E4.len()],
+            "cr" => "\r", "lf" => "\n", _ => panic!() });
     }
     s
 }
@@ -24,9 +36,11 @@ pub fn run(args: &[String]) -> i32 {
         if !line.starts_with("\"{") { continue; }
         let inner: String = serde_json::from_str(line).unwrap();
         let row: Value = serde_json::from_str(&inner).unwrap();
-        let s = text_of(&row);
         texts += 1;
-        let r = std::panic::catch_unwind(|| {
+        for variant in 0..VARIANTS {
+        let s = text_of(&row, variant);
+        let row = &row;
+        let r = std::panic::catch_unwind(move || {
             let mut bad: Vec<Value> = Vec::new();
             let mut n = 0usize;
             let ls = dora_parser::compute_line_starts(&s);
@@ -57,7 +71,8 @@ pub fn run(args: &[String]) -> i32 {
         });
         match r {
             Ok((k, b)) => { n += k; bad.extend(b); }
-            Err(_) => bad.push(json!({"what":"panic","text":text_of(&row)})),
+            Err(_) => bad.push(json!({"what":"panic","text":text_of(&row, variant)})),
+        }
         }
         if bad.len() > 50 { break; }
     }
